@@ -48,7 +48,7 @@ def register(reg):
             _last_outcome='opt:ref:PhaseExecutionOutcome', _last_execution_unit='val{none,str}',
             _test_options='ref:TestOptions', _test_start='opt:ref:PhaseDescriptor', _test_descriptor='ref:TestDescriptor',
             _run_phases_with_profiling='bool', _abort='ref:event', _full_abort='ref:event', _lock='ref:lock',
-            _teardown_phases_lock='ref:rlock', _phase_profile_stats='list', uid='str')
+            _teardown_phases_lock='ref:rlock', _phase_profile_stats='own:list', uid='str')
 
   register_executor_callees(reg)
 
